@@ -10,9 +10,17 @@
    (clean_up calls of any range may occur anywhere in those histories:
    C01_raw_memory_walk_with_cleanups.)  For RecursivePageTable the READ path is proved
    (C01_recursive_translate_page_reads_the_tree: its walk through the recursive addresses reaches
-   the slot the tree walk reaches).  Partial: for RecursivePageTable's writing operations (whose accesses go
-   through recursive addresses), the refinement is checked by the correspondence, not proved. *)
-From X86 Require Import Paging.Mapped Paging.Tree Paging.TreeProofs Paging.Refine Paging.RefineOps Paging.RefineParent Paging.RefineWalk Paging.RefineHistory Paging.RefineClean Paging.RefineHistoryClean Paging.Recursive Paging.RecResolve Paging.RecRead Paging.Run.
+   the slot the tree walk reaches), its unmap / update_flags / parent-flag calls / translate_page
+   are proved equal to MappedPageTable's on memory (Props/C02.v), and its map_to is proved equal to
+   MappedPageTable's map_to with the recursive mapper's creation flags
+   (C01_recursive_map_to_is_mapped_map_to), whose refinement to the tree operation of the
+   recursive kind is C01_map_to_of_either_kind_refines_tree.  Whole histories with clean-ups run on
+   the MappedPageTable memory model exactly as on the tree model
+   (C01_mapped_memory_model_equals_tree_model).  Partial: the level-4 table of a recursive
+   hierarchy is not a `rep` of a tree (its recursive slot points to itself), so the composition of
+   these two results at the level-4 table, and RecursivePageTable's clean-up, are checked by the
+   correspondence, not proved. *)
+From X86 Require Import Paging.Mapped Paging.Tree Paging.TreeProofs Paging.Refine Paging.RefineOps Paging.RefineParent Paging.RefineWalk Paging.RefineHistory Paging.RefineClean Paging.RefineHistoryClean Paging.Recursive Paging.RecResolve Paging.RecRead Paging.RecMap Paging.RefineFull Paging.TreeClean Paging.Run.
 Open Scope Z_scope.
 
 (* after ANY history from the empty level-4 table, every index path reaches exactly the leaf the
@@ -244,3 +252,37 @@ Theorem C01_recursive_translate_page_reads_the_tree : forall s ch k page,
   rtranslate_page s k page = Ok (s, t_translate_page ch (idx_list k page) k).
 Proof. exact rtranslate_page_repx. Qed.
 Print Assumptions C01_recursive_translate_page_reads_the_tree.
+
+(* map_to with the creation flags of either mapper kind refines the tree operation of that kind *)
+Theorem C01_map_to_of_either_kind_refines_tree : forall rc s ch k page frame flags pf,
+  0 <= k <= 2 ->
+  rep 4 s ch (root s) -> tframe (root s) -> sep s (root s) ch -> pflags_ok pf ->
+  leaf_ok (Z.to_nat (k + 1)) (leaf_word k frame flags) ->
+  exists s' o ch' a' r,
+    map_to_rc rc s k page frame flags pf = Ok (s', o) /\
+    map_path rc ch (idx_list k page) (leaf_word k frame flags) frame page pf (aor_of s) = (ch', a', r) /\
+    o = out_of r /\ aor_of s' = a' /\ root s' = root s /\ freed s' = freed s /\
+    rep 4 s' ch' (root s') /\ sep s' (root s') ch' /\
+    (forall a, 0 <= a -> ~ in_frames (root s :: frames_of ch ++ va s) a -> rd s' a = rd s a).
+Proof. exact map_to_rc_refines. Qed.
+Print Assumptions C01_map_to_of_either_kind_refines_tree.
+
+(* RecursivePageTable::map_to (every lower table reached through a recursive address resolved by
+   the hardware-style walk, new tables zeroed through that address) computes exactly the result and
+   the memory of MappedPageTable's map_to with the recursive creation flags *)
+Theorem C01_recursive_map_to_is_mapped_map_to : forall s ch k page frame flags pf,
+  0 <= k <= 2 -> 0 <= rec_index s < 512 -> repx (rec_index s) s ch -> tframe (root s) ->
+  sep s (root s) ch -> pflags_ok pf -> p4_index page <> rec_index s ->
+  rmap_to s k page frame flags pf = map_to_rc true s k page frame flags pf.
+Proof. exact rmap_to_eq. Qed.
+Print Assumptions C01_recursive_map_to_is_mapped_map_to.
+
+(* MappedPageTable/OffsetPageTable, whole histories with clean-ups: memory model = tree model *)
+Theorem C01_mapped_memory_model_equals_tree_model : forall rootf allocs ri ops,
+  tframe rootf -> sep (init_pstate rootf allocs ri) rootf empty_children -> Forall cop_ok2 ops ->
+  exists s' ch',
+    cmem_run (init_pstate rootf allocs ri) ops = Ok (s', snd (tree_run 0 (t_init allocs) (map cop_top ops))) /\
+    fst (tree_run 0 (t_init allocs) (map cop_top ops)) = tst ch' s' (rev (freed s')) /\
+    Inv s' ch' /\ wf_children ch'.
+Proof. exact mapped_model_refines_tree_model. Qed.
+Print Assumptions C01_mapped_memory_model_equals_tree_model.
